@@ -160,6 +160,11 @@ var c16KindName = []string{"join", "leave", "failed", "update", "reap"}
 type c16Exp struct {
 	kind     int
 	optional bool
+	// tag is the member's "t" tag as the event has to show it (the member as it
+	// is right after the change; for a reap, as it was last listed). Update
+	// events all have the same kind: the tag is what tells them apart, so a
+	// stale or overtaken update is visible as well.
+	tag string
 }
 
 type c16Snap struct {
@@ -177,17 +182,17 @@ func c16Transition(a, b c16Snap) (evs []c16Exp, ok bool) {
 	case !a.present && !b.present:
 		return nil, true
 	case !a.present && b.present:
-		return []c16Exp{{c16Join, false}}, true
+		return []c16Exp{{c16Join, false, b.tag}}, true
 	case a.present && !b.present:
 		if a.status == serf.StatusFailed {
 			// a force-leave with prune on a failed member: it leaves, then is erased
-			return []c16Exp{{c16Leave, true}, {c16Reap, false}}, true
+			return []c16Exp{{c16Leave, true, a.tag}, {c16Reap, false, a.tag}}, true
 		}
-		return []c16Exp{{c16Reap, false}}, true
+		return []c16Exp{{c16Reap, false, a.tag}}, true
 	}
 	if a.status == b.status {
 		if a.tag != b.tag || a.addr != b.addr {
-			return []c16Exp{{c16Update, false}}, true
+			return []c16Exp{{c16Update, false, b.tag}}, true
 		}
 		return nil, true
 	}
@@ -196,11 +201,11 @@ func c16Transition(a, b c16Snap) (evs []c16Exp, ok bool) {
 	}
 	switch {
 	case b.status == serf.StatusAlive && (a.status == serf.StatusFailed || a.status == serf.StatusLeft):
-		return []c16Exp{{c16Join, false}}, true
+		return []c16Exp{{c16Join, false, b.tag}}, true
 	case a.status == serf.StatusAlive && b.status == serf.StatusFailed:
-		return []c16Exp{{c16Failed, false}}, true
+		return []c16Exp{{c16Failed, false, b.tag}}, true
 	case b.status == serf.StatusLeft && (a.status == serf.StatusLeaving || a.status == serf.StatusFailed):
-		return []c16Exp{{c16Leave, false}}, true
+		return []c16Exp{{c16Leave, false, b.tag}}, true
 	case (a.status == serf.StatusAlive && b.status == serf.StatusLeaving) || (a.status == serf.StatusLeaving && b.status == serf.StatusAlive):
 		return nil, true
 	}
@@ -223,11 +228,12 @@ func c16Agrees(last int, s c16Snap) bool {
 	return true
 }
 
-// c16Subseq: is got an in-order subsequence of exp?
-func c16Subseq(got []int, exp []c16Exp) bool {
+// c16Subseq: is got (kinds and the tags the events showed) an in-order
+// subsequence of exp?
+func c16Subseq(got []int, tags []string, exp []c16Exp) bool {
 	j := 0
-	for _, g := range got {
-		for j < len(exp) && exp[j].kind != g {
+	for i, g := range got {
+		for j < len(exp) && (exp[j].kind != g || (i < len(tags) && exp[j].tag != tags[i])) {
 			j++
 		}
 		if j == len(exp) {
@@ -239,10 +245,10 @@ func c16Subseq(got []int, exp []c16Exp) bool {
 }
 
 // c16Complete: does got equal exp, optional entries skippable?
-func c16Complete(got []int, exp []c16Exp) bool {
+func c16Complete(got []int, tags []string, exp []c16Exp) bool {
 	j := 0
 	for _, e := range exp {
-		if j < len(got) && got[j] == e.kind {
+		if j < len(got) && got[j] == e.kind && (j >= len(tags) || tags[j] == e.tag) {
 			j++
 			continue
 		}
@@ -259,7 +265,7 @@ func c16Seq(exp []c16Exp) string {
 		if i > 0 {
 			s += " "
 		}
-		s += c16KindName[e.kind]
+		s += c16KindName[e.kind] + "(t=" + e.tag + ")"
 		if e.optional {
 			s += "?"
 		}
@@ -267,13 +273,16 @@ func c16Seq(exp []c16Exp) string {
 	return s + "]"
 }
 
-func c16Got(got []int) string {
+func c16Got(got []int, tags ...string) string {
 	s := "["
 	for i, g := range got {
 		if i > 0 {
 			s += " "
 		}
 		s += c16KindName[g]
+		if i < len(tags) {
+			s += "(t=" + tags[i] + ")"
+		}
 	}
 	return s + "]"
 }
@@ -286,6 +295,7 @@ type c16Node struct {
 	last      map[string]c16Snap
 	exp       map[string][]c16Exp
 	got       map[string][]int
+	gotTag    map[string][]string // the "t" tag each received event showed for the member
 	tainted   map[string]string // member -> why its exact sequence is unknown
 	bogus     string
 	raw       []string // every member event as received, in order (diagnostics)
@@ -343,7 +353,8 @@ func (d *c16Node) absorb(e serf.Event) {
 	r := c16KindName[k] + ":"
 	for _, m := range me.Members {
 		d.got[m.Name] = append(d.got[m.Name], k)
-		r += m.Name + " "
+		d.gotTag[m.Name] = append(d.gotTag[m.Name], m.Tags["t"])
+		r += m.Name + "(t=" + m.Tags["t"] + ") "
 	}
 	d.raw = append(d.raw, r)
 }
@@ -394,7 +405,7 @@ func bodyC16(c c16Case, x *vkit.Ctx) {
 			return nil
 		}
 		return &c16Node{label: label, n: n, slow: sl, coalesced: piped && c.Coalesce > 0,
-			last: map[string]c16Snap{}, exp: map[string][]c16Exp{}, got: map[string][]int{}, tainted: map[string]string{}}
+			last: map[string]c16Snap{}, exp: map[string][]c16Exp{}, got: map[string][]int{}, gotTag: map[string][]string{}, tainted: map[string]string{}}
 	}
 	piped := mk("piped", true)
 	if piped == nil {
@@ -634,6 +645,10 @@ func bodyC16(c c16Case, x *vkit.Ctx) {
 				return fmt.Sprintf("%s: member %s is %+v but the last event received is %q (received %s, status changes %s)",
 					d.label, m, final[d][m], c16KindName[got[len(got)-1]], c16Got(got), c16Seq(exp)), false
 			}
+			if tg := d.gotTag[m]; (!d.coalesced || got[len(got)-1] == c16Update) && final[d][m].present && tg[len(tg)-1] != final[d][m].tag {
+				return fmt.Sprintf("%s: member %s is %+v but the last event received shows tag t=%q (received %s, status changes %s)",
+					d.label, m, final[d][m], tg[len(tg)-1], c16Got(got, tg...), c16Seq(exp)), false
+			}
 		}
 		return "", true
 	}
@@ -697,17 +712,32 @@ func bodyC16(c c16Case, x *vkit.Ctx) {
 				}
 				return
 			}
+			// Nothing is dropped on a node without coalescing: the last event also
+			// shows the member as it is now (every tag change has its own event).
+			// With member coalescing the same holds when the last event is an
+			// update: the coalescer never holds back the newest event of a quantum
+			// that follows an update (it only suppresses a repeat of the kind it
+			// reported last, and never an update).
+			if tg := d.gotTag[m]; (!d.coalesced || (len(got) > 0 && got[len(got)-1] == c16Update)) && len(got) > 0 && final[d][m].present && tg[len(tg)-1] != final[d][m].tag {
+				x.Violationf("last-member-event-shows-stale-tags", "%s: member %s is %+v but the last event received (%q) shows tag t=%q (received %s, status changes %s; events as received %q)",
+					d.label, m, final[d][m], c16KindName[got[len(got)-1]], tg[len(tg)-1], c16Got(got, tg...), c16Seq(exp), d.raw)
+				return
+			}
 			if d.tainted[m] != "" {
 				continue
 			}
-			if !c16Subseq(got, exp) {
-				x.Violationf("member-events-out-of-order", "%s: member %s: received %s is not an in-order subsequence of its status changes %s (config snap=%v coalesce=%dms usercoal=%v)",
-					d.label, m, c16Got(got), c16Seq(exp), c.Snap, c.Coalesce, c.UserCoal)
+			if !c16Subseq(got, d.gotTag[m], exp) {
+				sig := "member-events-out-of-order"
+				if c16Subseq(got, nil, exp) {
+					sig = "member-event-shows-stale-or-overtaken-state"
+				}
+				x.Violationf(sig, "%s: member %s: received %s is not an in-order subsequence of its status changes %s (config snap=%v coalesce=%dms usercoal=%v)",
+					d.label, m, c16Got(got, d.gotTag[m]...), c16Seq(exp), c.Snap, c.Coalesce, c.UserCoal)
 				return
 			}
-			if !d.coalesced && !c16Complete(got, exp) {
+			if !d.coalesced && !c16Complete(got, d.gotTag[m], exp) {
 				x.Violationf("member-events-incomplete", "%s: member %s: nothing was dropped or coalesced, yet received %s differs from its status changes %s",
-					d.label, m, c16Got(got), c16Seq(exp))
+					d.label, m, c16Got(got, d.gotTag[m]...), c16Seq(exp))
 				return
 			}
 		}
@@ -718,10 +748,10 @@ func bodyC16(c c16Case, x *vkit.Ctx) {
 			continue
 		}
 		var tw []c16Exp
-		for _, k := range twin.got[m] {
-			tw = append(tw, c16Exp{k, false})
+		for i, k := range twin.got[m] {
+			tw = append(tw, c16Exp{k, false, twin.gotTag[m][i]})
 		}
-		if !c16Subseq(got, tw) {
+		if !c16Subseq(got, piped.gotTag[m], tw) {
 			x.Violationf("piped-output-not-subsequence-of-bare-output", "member %s: piped node delivered %s, bare twin delivered %s", m, c16Got(got), c16Got(twin.got[m]))
 			return
 		}
